@@ -98,7 +98,9 @@ LabVariants ==
      [lab |-> <<>>, num |-> <<NLab("n", <<1>>, <<"">>)>>],
      [lab |-> <<>>, num |-> <<NLab("n", <<1, 1>>, <<"u", "u">>)>>],\* multiplicity
      [lab |-> <<>>, num |-> <<NLab("n", <<2>>, <<"u">>)>>],
-     [lab |-> <<SLab("k", <<"x">>)>>, num |-> <<NLab("n", <<1>>, <<"u">>)>>]
+     [lab |-> <<SLab("k", <<"x">>)>>, num |-> <<NLab("n", <<1>>, <<"u">>)>>],
+     [lab |-> <<>>, num |-> <<NLab("n", <<1, 1>>, <<"u", "v">>)>>],\* 12: same values, same first unit, a later unit differs
+     [lab |-> <<>>, num |-> <<NLab("n", <<1, 1>>, <<"v", "u">>)>>] \* 13: the same units in the other order
   >>
 \* (the thorough catalogue widens the location pairs, shapes and splits; TLC caps an enumerated set at 10^6 elements)
 ValsA == {<<1, 2>>}
@@ -113,6 +115,7 @@ Prof(samples, hdr) == [samples |-> samples, hdr |-> hdr]
 LabPairs == {<<1, lb>> : lb \in DOMAIN LabVariants}
             \cup {<<2, lb>> : lb \in {2, 3, 4, 5, 11}}
             \cup {<<6, lb>> : lb \in {6, 7, 8, 9, 10, 11}}
+            \cup {<<9, lb>> : lb \in {9, 12, 13}} \cup {<<12, 12>>, <<12, 13>>}
 Splits == IF Tier = "quick" THEN {1, 2} ELSE {1, 2, 3}
 MkSmp(k, l, v, li) == Smp(Shape(k, l), v, LabVariants[li].lab, LabVariants[li].num)
 PairCasesOf(shapes, bases, variants, valsA, valsB, labPairs, splits) ==
